@@ -997,4 +997,68 @@ example : readAllRest (Fmt.kLine 4) .seek [64,97,10,65,10,43,10,73,10,64,98,10] 
     readValidateR 4 64 true .seek [64,97,10,65,10,43,10,73,10,64,98,10] 9 = some 4 ∧
     readValidateR 4 64 true .seek [64,97,10,65,10,43,10,73,10,64,98,10] 12 = some 4 := by decide
 
+/-! ### lazily read chunks joined before they are looked at (`np.concatenate(chunks[j:])`) -/
+
+theorem firstBad_append_of_some {α} (p : α → Bool) (l r : List α) (i : Nat) (h : firstBad p l = some i) :
+    firstBad p (l ++ r) = some i := by
+  obtain ⟨good, bad, rest, hE, hg, hb, hi⟩ := firstBad_some_split p l i h
+  rw [hE, List.append_assoc, List.cons_append, firstBad_at_split p good (rest ++ r) bad hg hb, hi]
+
+theorem reportedRows_eq_flatten : ∀ (cs : List (List Bool)) (L : Nat),
+    reportedRows L cs = (firstBad id cs.flatten).map (· + L) := by
+  intro cs
+  induction cs with
+  | nil => intro L; simp [reportedRows, firstBad]
+  | cons c cs ih =>
+    intro L
+    simp only [reportedRows, List.flatten_cons]
+    cases hc : firstBad id c with
+    | some i =>
+      rw [firstBad_append_of_some id c _ i hc]
+      simp [Nat.add_comm]
+    | none =>
+      have hgood : ∀ a ∈ c, id a = true := (firstBad_none_iff id c).mp hc
+      rw [firstBad_append_good id c _ hgood, ih (L + c.length)]
+      cases firstBad id cs.flatten with
+      | none => rfl
+      | some j => simp; omega
+
+theorem readLazy_rows : ∀ (cs : List (List Bool)) (L : Nat), (readLazy L cs).map (·.rows) = cs := by
+  intro cs
+  induction cs with
+  | nil => intro L; rfl
+  | cons c cs ih => intro L; simp [readLazy, ih]
+
+theorem readLazy_drop : ∀ (cs : List (List Bool)) (L j : Nat),
+    (readLazy L cs).drop j = readLazy (L + (cs.take j).flatten.length) (cs.drop j) := by
+  intro cs
+  induction cs with
+  | nil => intro L j; simp [readLazy]
+  | cons c cs ih =>
+    intro L j
+    cases j with
+    | zero => simp
+    | succ j =>
+      simp only [readLazy, List.drop_succ_cons, List.take_succ_cons, List.flatten_cons, List.length_append]
+      rw [ih (L + c.length) j]
+      congr 1; omega
+
+/-- **C15.lazy_concat_tail** — lazily read chunks `cs[j:]` joined with `np.concatenate` BEFORE any field is looked at, then
+looked at: the reported line is the first non-parsing row among them, counted from the start of the data — what eager
+reading of those chunks reports (`reportedRows` started at the lines delivered before chunk `j`). The joined object keeps
+the start line of its first operand; a join that forgets it (seeded change C15-x1) reports a line short by exactly the
+lines of `cs[:j]`. -/
+theorem lazy_concat_tail (cs : List (List Bool)) (L j : Nat) (hj : j < cs.length) :
+    accessLazy (concatLazy ((readLazy L cs).drop j)) = reportedRows (L + (cs.take j).flatten.length) (cs.drop j) := by
+  rw [readLazy_drop, reportedRows_eq_flatten]
+  obtain ⟨c, rest, hd⟩ : ∃ c rest, cs.drop j = c :: rest := by
+    cases h : cs.drop j with
+    | nil => simp at h; omega
+    | cons c rest => exact ⟨c, rest, rfl⟩
+  unfold accessLazy concatLazy
+  rw [readLazy_rows]
+  simp [hd, readLazy]
+
+example : accessLazy (concatLazy ((readLazy 0 [[true, true], [true, true, true], [true, false]]).drop 1)) = some 6 := by decide
+
 end C15
